@@ -609,6 +609,15 @@ def observable(ex):
     return ('ok', ex['status'], tuple(map(tuple, ex['fields'])), ex['body'])
 
 
+def _surplus_arrived_with_body(m, cuts, msg_len):
+    """the segment that carries the last byte of the message also carries at least one byte behind it"""
+    pts = [0] + list(cuts) + [len(m['bytes'])]
+    for a, b in zip(pts, pts[1:]):
+        if a <= msg_len - 1 < b:
+            return b > msg_len
+    return False
+
+
 def property_violations(m, runs):
     """m: message, runs: list of (cuts, exchange result) for the same message"""
     out = []
@@ -633,6 +642,12 @@ def property_violations(m, runs):
                 v = {'why': 'wrong-consumed-length', 'got': ex['consumed'], 'want': e['len']}
             elif e['delim'] in ('length', 'chunked', 'none') and ex['consumed'] > e['len'] and not ex['closed']:
                 v = {'why': 'surplus-kept', 'got': ex['consumed'], 'want': e['len']}
+            elif e['delim'] == 'length' and e['len'] > 0 and not ex['closed'] and _surplus_arrived_with_body(m, cuts, e['len']) \
+                    and (ex.get('payload_len') or 0) > 0:
+                # surplus bytes that are already there when the last byte of a Content-Length body is read must not stay on a
+                # connection that is kept for the next exchange (they would be taken for the start of the next response)
+                v = {'why': 'available-surplus-left-on-open-connection', 'consumed': ex['consumed'], 'message_len': e['len'],
+                     'stream_len': len(m['bytes'])}
         if v:
             v['cuts'] = cuts
             out.append(v)
